@@ -24,9 +24,9 @@ template <typename T>
     auto const frac  = arg - static_cast<T>(whole);
     auto result      = static_cast<T>(whole);
     if (frac > T(0.5) or (frac == T(0.5) and whole % 2 != 0)) {
-        result = static_cast<T>(whole + 1);
+        result = static_cast<T>(whole) + T(1); // in T: whole + 1 overflows long long for a long double just below 2^63
     } else if (frac < T(-0.5) or (frac == T(-0.5) and whole % 2 != 0)) {
-        result = static_cast<T>(whole - 1);
+        result = static_cast<T>(whole) - T(1);
     }
     if (result == T(0) and arg < T(0)) {
         return -T(0);
